@@ -519,3 +519,226 @@ Proof.
   intros k d u Hk. now apply scQ_scQ1_hist.
 Qed.
 Close Scope Qc_scope.
+
+(** ====================================================================================== *)
+(** ** Part C: the repaired diffuse-scene theorems, and the composed room [rmQ] *)
+Open Scope Qc_scope.
+
+(** *** C01_model_balance_bounded
+    The room of Part B with DIFFUSE tables: two incoming samples per wall, one outgoing slot, two
+    bands; wall 0 reflects 1/2 and 1/4, wall 1 reflects 1/3 and 1/5; air attenuation in band 1;
+    patch 2 is hidden from the source. *)
+Definition ins2 : list (list (@vec Qc)) :=
+  [[v 0 0 1; vq (q 3 5) 0 (q 4 5)]; [v 0 0 1; vq (q 3 5) 0 (q 4 5)]].
+Definition scD : @scene Qc :=
+  scG 1 2 [0; q 1 100]
+      [[[[q 1 2; q 1 4]]; [[q 1 2; q 1 4]]]; [[[q 1 3; q 1 5]]; [[q 1 3; q 1 5]]]]
+      ins2 [[v 0 0 1]; [v 0 0 1]].
+Definition rhoD (w b : nat) : Qc := nth b (nth w [[q 1 2; q 1 4]; [q 1 3; q 1 5]] []) 0.
+Definition ptD : @point_data Qc :=
+  mkPoint (v 0 0 5) [true; true; false] [q 1 10; q 1 20; q 1 30] [q 1 7; q 1 8; q 1 9].
+
+Notation EEd := (E (directed (vis_pairs scD)) (scene_delta scD tmS) (tilde_entry scD) (out_index scD)
+                   (scene_delta0 scD tmS (as_source ptD)) (e0dir_entry scD (as_source ptD))).
+
+(** every hypothesis of [C01_model_balance_bounded], by computation (order k = 1, window N = 20) *)
+Example scD_wf : wf_scene scD.
+Proof. apply wf_check_ok. vm_compute. reflexivity. Qed.
+Example scD_tables_ok : tables_ok scD.
+Proof. apply tables_ok_check_ok. vm_compute. reflexivity. Qed.
+Example scD_diffuse : diffuse_in_range scD rhoD.
+Proof. apply (diffuse_check_ok qf_teqb_sound). vm_compute. reflexivity. Qed.
+Example scD_diffuse_band b : (b < 2)%nat -> diffuse_in_range_band scD b (fun w => rhoD w b).
+Proof. intros Hb w a d Hw Ha Hd. now apply scD_diffuse. Qed.
+Example scD_fit b : (b < 2)%nat ->
+  forall m j, (m < s_np scD)%nat -> (j < s_np scD)%nat -> (scene_delta scD tmS m j <= 20)%nat /\
+    forall t, (20 - scene_delta scD tmS m j <= t)%nat -> (t < 20)%nat -> EEd 1%nat m 0%nat b t = 0%T.
+Proof.
+  intros Hb. apply (fit_check_ok qf_teqb_sound).
+  destruct b as [|[|b]]; [| |lia]; vm_compute; reflexivity.
+Qed.
+(** the data are not trivial: the table really has 2 walls x 2 rows, every reflectance is non-zero,
+    all three pairs are visible *)
+Example scD_data :
+  length (s_tidx scD) = 2%nat /\ map (table_rows scD) [0; 1]%nat = [2; 2]%nat /\
+  map (fun w => map (fun b => negb (teqb (rhoD w b) 0%T)) [0; 1]%nat) [0; 1]%nat = [[true; true]; [true; true]] /\
+  vis_pairs scD = [(0, 1); (0, 2); (1, 2)]%nat.
+Proof. repeat split; vm_compute; reflexivity. Qed.
+
+(** ... so the theorem applies, in both bands *)
+Example C01_model_balance_bounded_witness b : (b < 2)%nat ->
+  sumf (seq 0 (s_np scD)) (fun j => hsum 20 (EEd 2%nat j 0%nat b)) =
+  sumf (seq 0 (s_np scD)) (fun j =>
+    (rhoD (wall scD j) b * sumf (seq 0 (s_np scD)) (fun m => (Gm scD b m j * hsum 20 (EEd 1%nat m 0%nat b))%T))%T).
+Proof.
+  intros Hb.
+  exact (C01_model_balance_bounded scD tmS b (fun w => rhoD w b) ptD 20 1 scD_wf eq_refl Hb
+           scD_tables_ok (scD_diffuse_band b Hb) (scD_fit b Hb)).
+Qed.
+(** ... and both sides are a non-zero amount of energy (second-order energy of all patches) *)
+Example C01_model_balance_bounded_nonzero :
+  sumf (seq 0 (s_np scD)) (fun j => hsum 20 (EEd 2%nat j 0%nat 0%nat)) <> 0%T /\
+  sumf (seq 0 (s_np scD)) (fun j => hsum 20 (EEd 2%nat j 0%nat 1%nat)) <> 0%T.
+Proof. split; qc_neq0. Qed.
+(** the read-entry form applies as well *)
+Example C01_model_balance_vis_witness b : (b < 2)%nat ->
+  sumf (seq 0 (s_np scD)) (fun j => hsum 20 (EEd 2%nat j 0%nat b)) =
+  sumf (seq 0 (s_np scD)) (fun j =>
+    (rhoD (wall scD j) b * sumf (seq 0 (s_np scD)) (fun m => (Gm scD b m j * hsum 20 (EEd 1%nat m 0%nat b))%T))%T).
+Proof.
+  intros Hb.
+  apply (C01_model_balance_vis scD tmS b (fun w => rhoD w b) ptD 20 1 scD_wf eq_refl Hb);
+    [| |exact (scD_fit b Hb)].
+  - intros i j Hi Hj _. apply (scD_diffuse_band b Hb);
+      [now destruct (scD_tables_ok j Hj)|now apply in_index_in_range; [exact scD_tables_ok|]|simpl; lia].
+  - intros i Hi _. apply (scD_diffuse_band b Hb);
+      [now destruct (scD_tables_ok i Hi)|now apply src_in_index_in_range; [exact scD_tables_ok|]|simpl; lia].
+Qed.
+(** the hypothesis of the OLD theorem [C01_model_balance] fails on this scene: a read beyond the
+    two rows of a table returns 0, not the reflectance *)
+Example C01_model_balance_old_hypothesis_fails :
+  ~ (forall w a d, beta scD w a d 0 = rhoD w 0).
+Proof. intros H. specialize (H 0%nat 2%nat 0%nat). revert H. qc_neq0. Qed.
+
+(** *** C03_diffuse_sampling_independent_bounded
+    the same room sampled with 1 incoming x 1 outgoing direction, and with 2 incoming x 3 outgoing
+    directions *)
+Definition scD1 : @scene Qc :=
+  scG 1 2 [0; q 1 100] [[[[q 1 2; q 1 4]]]; [[[q 1 3; q 1 5]]]] [[v 0 0 1]; [v 0 0 1]] [[v 0 0 1]; [v 0 0 1]].
+Definition outs3 : list (list (@vec Qc)) :=
+  [[v 0 0 1; vq (q 3 5) 0 (q 4 5); vq 0 (q 3 5) (q 4 5)]; [v 0 0 1; vq (q 3 5) 0 (q 4 5); vq 0 (q 3 5) (q 4 5)]].
+Definition row3 (a b : Qc) : list (list Qc) := [[a; b]; [a; b]; [a; b]].
+Definition scD3 : @scene Qc :=
+  scG 3 2 [0; q 1 100]
+      [[row3 (q 1 2) (q 1 4); row3 (q 1 2) (q 1 4)]; [row3 (q 1 3) (q 1 5); row3 (q 1 3) (q 1 5)]]
+      ins2 outs3.
+
+Example scD13_same_room : same_room scD1 scD3.
+Proof. repeat split. Qed.
+Example scD1_wf : wf_scene scD1.
+Proof. apply wf_check_ok. vm_compute. reflexivity. Qed.
+Example scD3_wf : wf_scene scD3.
+Proof. apply wf_check_ok. vm_compute. reflexivity. Qed.
+Example scD1_tables_ok : tables_ok scD1.
+Proof. apply tables_ok_check_ok. vm_compute. reflexivity. Qed.
+Example scD3_tables_ok : tables_ok scD3.
+Proof. apply tables_ok_check_ok. vm_compute. reflexivity. Qed.
+Example scD1_diffuse : diffuse_in_range scD1 rhoD.
+Proof. apply (diffuse_check_ok qf_teqb_sound). vm_compute. reflexivity. Qed.
+Example scD3_diffuse : diffuse_in_range scD3 rhoD.
+Proof. apply (diffuse_check_ok qf_teqb_sound). vm_compute. reflexivity. Qed.
+Example scD13_data :
+  (s_nd scD1, map (table_rows scD1) [0; 1]%nat) = (1%nat, [1; 1]%nat) /\
+  (s_nd scD3, map (table_rows scD3) [0; 1]%nat) = (3%nat, [2; 2]%nat) /\
+  (** the two models do use different slots: slot of patch 0 towards 1 and 2, of patch 1 towards 0 *)
+  map (fun p => out_index scD3 (fst p) (snd p)) [(0, 1); (0, 2); (1, 0)]%nat = [1; 2; 0]%nat.
+Proof. repeat split; vm_compute; reflexivity. Qed.
+
+Example C03_diffuse_sampling_independent_bounded_witness j d d' b t :
+  (j < 3)%nat -> (d < 1)%nat -> (d' < 3)%nat -> (b < 2)%nat -> (t < 16)%nat ->
+  get4 (patch_hist scD1 tmS srcQ 2) j d b t = get4 (patch_hist scD3 tmS srcQ 2) j d' b t.
+Proof.
+  intros Hj Hd Hd' Hb Ht.
+  apply (C03_diffuse_sampling_independent_bounded scD1 scD3 rhoD tmS srcQ srcQ 2 j d d' b t
+           scD13_same_room scD1_tables_ok scD3_tables_ok scD1_diffuse scD3_diffuse scD1_wf scD3_wf);
+    try reflexivity; try assumption.
+Qed.
+(** the histograms are not empty: bins with energy in band 1, slot 0 of [scD1] = every slot of [scD3] *)
+Example C03_bounded_histograms_nonzero :
+  map (fun j => support (nthl (nthl (nthl (patch_hist scD1 tmS srcQ 2) j) 0) 1)) [0; 1; 2]%nat =
+  [[5; 10; 11; 13; 14]; [6; 9; 13; 14]; [8; 11; 13; 14]]%nat /\
+  map (fun d' => map (fun j => support (nthl (nthl (nthl (patch_hist scD3 tmS srcQ 2) j) d') 1)) [0; 1; 2]%nat)
+      [0; 1; 2]%nat =
+  repeat [[5; 10; 11; 13; 14]; [6; 9; 13; 14]; [8; 11; 13; 14]]%nat 3.
+Proof. split; vm_compute; reflexivity. Qed.
+Example C03_old_hypothesis_fails : ~ diffuse scD3 rhoD.
+Proof. intros H. specialize (H 0%nat 2%nat 0%nat 0%nat). revert H. qc_neq0. Qed.
+
+(** *** the composed room [rmQ] of RoomQc *)
+Lemma n40 : n_samples tmQ = 40%nat.
+Proof. vm_compute. reflexivity. Qed.
+
+(** C03_from_polygons / C03_pairs_line_of_sight / C03_hidden_zero *)
+Example C03_from_polygons_witness j d b t :
+  (j < 3)%nat -> (d < 1)%nat -> (b < 2)%nat -> (t < 40)%nat ->
+  get4 (patch_hist (room_scene rmQ) tmQ (room_source rmQ ptA) 2) j d b t =
+  Tot (directed (vis_pairs (room_scene rmQ))) (scene_delta (room_scene rmQ) tmQ) (tilde_entry (room_scene rmQ))
+      (out_index (room_scene rmQ)) (scene_delta0 (room_scene rmQ) tmQ (room_source rmQ ptA))
+      (e0dir_entry (room_scene rmQ) (room_source rmQ ptA)) 2 j d b t.
+Proof.
+  intros Hj Hd Hb Ht. apply C03_from_polygons; try assumption; try discriminate.
+Qed.
+Example C03_pairs_line_of_sight_witness :
+  vis_sym (room_scene rmQ) 0 1 =
+  visible_all (rm_eps rmQ) (rm_eta rmQ) (rm_patch_surfs rmQ) (nthv (rm_centers rmQ) 0) (nthv (rm_centers rmQ) 1) /\
+  vis_sym (room_scene rmQ) 0 1 = true.
+Proof. split; [apply C03_pairs_line_of_sight; vm_compute; lia|vm_compute; reflexivity]. Qed.
+Example C03_hidden_zero_witness b :
+  energy0 (room_scene rmQ) (room_source rmQ ptA) 2 b = 0%T /\
+  energy0 (room_scene rmQ) (room_source rmQ ptA) 0 0 <> 0%T.
+Proof. split; [apply C03_hidden_zero; vm_compute; reflexivity|qc_neq0]. Qed.
+
+(** C09_baked_reciprocity *)
+Example C09_baked_reciprocity_witness :
+  (Gm (room_scene rmQ) 0 0 1 * iaP (room_scene rmQ) 1)%T = (Gm (room_scene rmQ) 0 1 0 * iaP (room_scene rmQ) 0)%T /\
+  Gm (room_scene rmQ) 0 0 1 <> 0%T.
+Proof.
+  split; [|qc_neq0].
+  apply (C09_baked_reciprocity (room_scene rmQ) 0 0 1 rmQ_area_nz); vm_compute; lia.
+Qed.
+
+(** C09_model_vis on the scene of the composed room: every hypothesis holds (two bands) *)
+Example C09_model_vis_witness b t : (b < 2)%nat -> (t < 40)%nat ->
+  get2 (mono (room_scene rmQ) tmQ (patch_hist (room_scene rmQ) tmQ (as_source (room_point rmQ ptA)) 2)
+          (as_source (room_point rmQ ptA)) (as_receiver (room_point rmQ ptB)) false None) b t =
+  get2 (mono (room_scene rmQ) tmQ (patch_hist (room_scene rmQ) tmQ (as_source (room_point rmQ ptB)) 2)
+          (as_source (room_point rmQ ptB)) (as_receiver (room_point rmQ ptA)) false None) b t.
+Proof.
+  intros Hb Ht.
+  apply (C09_model_vis (room_scene rmQ) tmQ b (rhoQ b) (room_point rmQ ptA) (room_point rmQ ptB) 2 t
+           (room_wf rmQ rmQ_one_slot) (room_nd rmQ rmQ_one_slot) Hb rmQ_area_nz
+           (room_diffuse_pairs rmQ b rmQ_in_nonempty (rhoQ b) (rmQ_diffuse b Hb))
+           (room_diffuse_src rmQ b rmQ_in_nonempty (rhoQ b) (rmQ_diffuse b Hb) ptA)
+           (room_diffuse_src rmQ b rmQ_in_nonempty (rhoQ b) (rmQ_diffuse b Hb) ptB)
+           (room_linked rmQ tmQ rmQ_area_nz rmQ_pi_nz rmQ_four_nz ptA rmQ_bins_A)
+           (room_linked rmQ tmQ rmQ_area_nz rmQ_pi_nz rmQ_four_nz ptB rmQ_bins_B)
+           (room_fits rmQ tmQ b rmQ_one_slot ptA ptB 2 (rmQ_fits_AB b Hb))
+           (room_fits rmQ tmQ b rmQ_one_slot ptB ptA 2 (rmQ_fits_BA b Hb))).
+  rewrite n40. exact Ht.
+Qed.
+
+(** C09_roles_linked: the floor patch of the room seen from A *)
+Example C09_roles_linked_witness :
+  let pts := nth 0%nat (rm_patch_pts rmQ) [] in
+  pt_solution (rm_thr rmQ) true ptA pts = ((four * pt_solution (rm_thr rmQ) false ptA pts) * (1 / poly_area pts))%T /\
+  pt_solution (rm_thr rmQ) false ptA pts <> 0%T.
+Proof.
+  cbv zeta. split; [|qc_neq0].
+  apply C09_roles_linked; [exact rmQ_pi_nz|exact rmQ_four_nz|qc_neq0|].
+  intros a c Ha Hc H. destruct (Qcmult_integral _ _ H); contradiction.
+Qed.
+
+(** C11_room_receiver_partial: the fitting hypothesis is [room_recv_fits] *)
+Example C11_room_receiver_partial_witness b t : (b < 2)%nat -> (t < 40)%nat ->
+  get2 (room_mono rmQ tmQ ptA ptB 2 true) b t =
+  (sumf (filter (fun k => nthb (room_point_vis rmQ ptB) k) (seq 0 (rm_np rmQ))) (fun k =>
+     let d := vdist (nthv (rm_centers rmQ) k) ptB in
+     let g := delay_ceil d (t_c tmQ) (t_dt tmQ) in
+     if (t <? g)%nat then 0%T
+     else ((get4 (patch_hist (room_scene rmQ) tmQ (room_source rmQ ptA) 2) k (room_recv_slot rmQ ptB k) b (t - g) *
+            pt_solution (rm_thr rmQ) true ptB (nth k (rm_patch_pts rmQ) [])) *
+           texp ((- nthT (rm_att rmQ) b) * d))%T) +
+   (if true && (t =? delay_floor (vnorm (vsub ptB ptA)) (t_c tmQ) (t_dt tmQ))%nat
+    then (let rr := vnorm (vsub ptB ptA) in
+          (1 * (1 / ((four * tpi) * (rr * rr)))) * texp ((- nthT (rm_att rmQ) b) * rr))
+    else 0))%T.
+Proof.
+  intros Hb Ht.
+  apply (C11_room_receiver_partial rmQ tmQ ptA ptB 2 true b t Hb); [rewrite n40; exact Ht|].
+  exact (rmQ_fits_AB b Hb).
+Qed.
+Close Scope Qc_scope.
+
+Print Assumptions C01_model_balance_bounded_witness.
+Print Assumptions C03_diffuse_sampling_independent_bounded_witness.
+Print Assumptions C09_model_vis_witness.
